@@ -76,11 +76,13 @@ package mqtt
 //@   ensures[C12] frame: message.Topic == topic0 && message.QoS == qos0 && message.Retain == retain0 && sameSlice(message.Payload, payload0)
 //@   ensures[C05,C12] wire: evCount("(*BaseClient).write") <= 1 && (evCount("(*BaseClient).write") == 1 ==> seqEq(evBytes("(*BaseClient).write", 0, 1), specPublish(message)))
 //@   ensures[C01,C07,C12,C19] on_own_client: (evCount("(*BaseClient).write") == 1 ==> evArg[*BaseClient]("(*BaseClient).write", 0, 0) == c) &&
-//@        (evCount("mapstore:map<uint16,chan *pktPubAck>") == 1 ==> sameMap(evArg[map[uint16]chan *pktPubAck]("mapstore:map<uint16,chan *pktPubAck>", 0, 0), sig0.chPubAck)) &&
-//@        (evCount("mapstore:map<uint16,chan *pktPubRec>") == 1 ==> sameMap(evArg[map[uint16]chan *pktPubRec]("mapstore:map<uint16,chan *pktPubRec>", 0, 0), sig0.chPubRec)) &&
+//@        (evCount("mapstore:map<uint16,chan *pktPubAck>") == 1 ==> sameMap(evArg[map[uint16]chan *pktPubAck]("mapstore:map<uint16,chan *pktPubAck>", 0, 0), sig0.chPubAck) &&
+//@             chanCap(evArg[chan *pktPubAck]("mapstore:map<uint16,chan *pktPubAck>", 0, 2)) >= 1) &&
+//@        (evCount("mapstore:map<uint16,chan *pktPubRec>") == 1 ==> sameMap(evArg[map[uint16]chan *pktPubRec]("mapstore:map<uint16,chan *pktPubRec>", 0, 0), sig0.chPubRec) &&
+//@             chanCap(evArg[chan *pktPubRec]("mapstore:map<uint16,chan *pktPubRec>", 0, 2)) >= 1) &&
 //@        (evCount("publishImpl$2") == 1 ==> evArg[*BaseClient]("publishImpl$2", 0, 1) == c)
 //@   ensures[C12] qos0_no_handle: qos0 == QoS0 ==> !isRetryErr(result) && evCount("publishImpl$2") == 0
-//@   ensures[C01,C19] interrupted: sig0 != nil && qos0 > QoS0 && result != nil && result != io.EOF ==> isRetryErr(result)
+//@   ensures[C01,C02,C19] interrupted: sig0 != nil && qos0 > QoS0 && result != nil && result != io.EOF ==> isRetryErr(result)
 //@   ensures[C02,C12] stage1: evCount("publishImpl$2") == 0 && isRetryErr(result) ==>
 //@        closureIs(retryOf(result), "publishImpl$1") && *closureVarN[**Message](retryOf(result), "publishImpl$1", "message") == message
 //@   ensures[C02,C12] stage2: evCount("publishImpl$2") == 1 ==> result == evRet[error]("publishImpl$2", 0, 0) && qos0 == QoS2
@@ -127,9 +129,10 @@ package mqtt
 //@        (evCount("(*BaseClient).write") == 1 ==> seqEq(evBytes("(*BaseClient).write", 0, 1), specAck(0x62, message.ID)))
 //@   ensures[C02,C12] stage: isRetryErr(result) ==> closureIs(retryOf(result), "publishImpl$2") &&
 //@        *closureVarN[**Message](retryOf(result), "publishImpl$2", "message") == message
-//@   ensures[C01,C19] interrupted: sig0 != nil && result != nil && result != io.EOF ==> isRetryErr(result)
+//@   ensures[C01,C02,C19] interrupted: sig0 != nil && result != nil && result != io.EOF ==> isRetryErr(result)
 //@   ensures[C01,C07,C12,C19] on_given_client: (evCount("(*BaseClient).write") == 1 ==> evArg[*BaseClient]("(*BaseClient).write", 0, 0) == cli) &&
-//@        (evCount("mapstore:map<uint16,chan *pktPubComp>") == 1 ==> sameMap(evArg[map[uint16]chan *pktPubComp]("mapstore:map<uint16,chan *pktPubComp>", 0, 0), sig0.chPubComp))
+//@        (evCount("mapstore:map<uint16,chan *pktPubComp>") == 1 ==> sameMap(evArg[map[uint16]chan *pktPubComp]("mapstore:map<uint16,chan *pktPubComp>", 0, 0), sig0.chPubComp) &&
+//@             chanCap(evArg[chan *pktPubComp]("mapstore:map<uint16,chan *pktPubComp>", 0, 2)) >= 1)
 //@   ensures[C07,C11] nil_only_comp: result == nil ==> evCount("select") == 1 && evRet[int]("select", 0, 0) == 2 &&
 //@        evCount("mapstore:map<uint16,chan *pktPubComp>") == 1 && evArg[uint16]("mapstore:map<uint16,chan *pktPubComp>", 0, 1) == message.ID &&
 //@        evArg[chan *pktPubComp]("mapstore:map<uint16,chan *pktPubComp>", 0, 2) == evArg[chan *pktPubComp]("select", 0, 2) && fresh(evArg[chan *pktPubComp]("select", 0, 2)) &&
@@ -158,7 +161,8 @@ package mqtt
 //@        fresh(evArg[chan *pktSubAck]("mapstore:map<uint16,chan *pktSubAck>", 0, 2))
 //@   ensures[C07] order: evCount("(*BaseClient).write") == 1 ==> evIndex("mapstore:map<uint16,chan *pktSubAck>", 0) < evIndex("(*BaseClient).write", 0)
 //@   ensures[C01,C07,C19] on_own_client: (evCount("(*BaseClient).write") == 1 ==> evArg[*BaseClient]("(*BaseClient).write", 0, 0) == c) &&
-//@        (evCount("mapstore:map<uint16,chan *pktSubAck>") == 1 ==> sameMap(evArg[map[uint16]chan *pktSubAck]("mapstore:map<uint16,chan *pktSubAck>", 0, 0), sig0.chSubAck))
+//@        (evCount("mapstore:map<uint16,chan *pktSubAck>") == 1 ==> sameMap(evArg[map[uint16]chan *pktSubAck]("mapstore:map<uint16,chan *pktSubAck>", 0, 0), sig0.chSubAck) &&
+//@             chanCap(evArg[chan *pktSubAck]("mapstore:map<uint16,chan *pktSubAck>", 0, 2)) >= 1)
 //@   ensures[C05,C07,C15] wire: evCount("(*BaseClient).write") == 1 ==> evCount("(*pktSubscribe).Pack") == 1 &&
 //@        evArg[*pktSubscribe]("(*pktSubscribe).Pack", 0, 0).ID == evArg[uint16]("mapstore:map<uint16,chan *pktSubAck>", 0, 1) &&
 //@        sameSlice(evArg[*pktSubscribe]("(*pktSubscribe).Pack", 0, 0).Subscriptions, subs) &&
@@ -201,7 +205,8 @@ package mqtt
 //@        fresh(evArg[chan *pktUnsubAck]("mapstore:map<uint16,chan *pktUnsubAck>", 0, 2))
 //@   ensures[C07] order: evCount("(*BaseClient).write") == 1 ==> evIndex("mapstore:map<uint16,chan *pktUnsubAck>", 0) < evIndex("(*BaseClient).write", 0)
 //@   ensures[C01,C07,C19] on_own_client: (evCount("(*BaseClient).write") == 1 ==> evArg[*BaseClient]("(*BaseClient).write", 0, 0) == c) &&
-//@        (evCount("mapstore:map<uint16,chan *pktUnsubAck>") == 1 ==> sameMap(evArg[map[uint16]chan *pktUnsubAck]("mapstore:map<uint16,chan *pktUnsubAck>", 0, 0), sig0.chUnsubAck))
+//@        (evCount("mapstore:map<uint16,chan *pktUnsubAck>") == 1 ==> sameMap(evArg[map[uint16]chan *pktUnsubAck]("mapstore:map<uint16,chan *pktUnsubAck>", 0, 0), sig0.chUnsubAck) &&
+//@             chanCap(evArg[chan *pktUnsubAck]("mapstore:map<uint16,chan *pktUnsubAck>", 0, 2)) >= 1)
 //@   ensures[C05,C07,C15] wire: evCount("(*BaseClient).write") == 1 ==> evCount("(*pktUnsubscribe).Pack") == 1 &&
 //@        evArg[*pktUnsubscribe]("(*pktUnsubscribe).Pack", 0, 0).ID == evArg[uint16]("mapstore:map<uint16,chan *pktUnsubAck>", 0, 1) &&
 //@        sameSlice(evArg[*pktUnsubscribe]("(*pktUnsubscribe).Pack", 0, 0).Topics, subs) &&
@@ -209,7 +214,7 @@ package mqtt
 //@   ensures[C07,C11] nil_only_acked: result == nil ==> evCount("select") == 1 && evRet[int]("select", 0, 0) == 2 &&
 //@        evArg[chan *pktUnsubAck]("select", 0, 2) == evArg[chan *pktUnsubAck]("mapstore:map<uint16,chan *pktUnsubAck>", 0, 2) &&
 //@        evIndex("(*BaseClient).write", 0) < evIndex("select", 0)
-//@   ensures[C01,C19] interrupted: sig0 != nil && result != nil && result != io.EOF ==> isRetryErr(result)
+//@   ensures[C01,C02,C19] interrupted: sig0 != nil && result != nil && result != io.EOF ==> isRetryErr(result)
 //@   ensures[C01,C19] handle: isRetryErr(result) ==> closureIs(retryOf(result), "unsubscribeImpl$1") && sameSlice(*closureVarN[*[]string](retryOf(result), "unsubscribeImpl$1", "subs"), subs)
 //@   ensures[C11] waitset: evCount("select") == 1 ==> evRet[int]("select", 0, 0) >= 0 && evArg[chan struct{}]("select", 0, 0) == c.connClosed &&
 //@        evArg[<-chan struct{}]("select", 0, 1) == evRet[<-chan struct{}]("context.Context.Done", 0, 0) && evArg[context.Context]("context.Context.Done", 0, 0) == ctx
